@@ -1279,4 +1279,13 @@ def telecentric_flag(ctx):
     return res
 
 
-RULES = [telecentric_flag, launch_guards, xy_exchange, no_stale, field_wiring, config_table, aim, trace_entry, in_disk, registry]
+
+def c19_s6_optic(ctx):
+    """shared with C19: the launch configuration of the lens (object-space
+    telecentric flag, field type, aperture) is written by to_dict and read
+    back by from_dict from the same key - a copy made through the dictionary
+    launches its rays like the original"""
+    from .C19 import s6_optic as _r
+    return _r(ctx)
+
+RULES = [c19_s6_optic, telecentric_flag, launch_guards, xy_exchange, no_stale, field_wiring, config_table, aim, trace_entry, in_disk, registry]
